@@ -406,6 +406,18 @@ def from_str_radix(i, fr, st, pc, a, t, fn, r):
     ]
 
 
+def str_bytes(i, fr, st, pc, a, t, fn, r):
+    return _ret(i, st, pc, Opaque("str_iter", (a[0],)))
+
+
+def str_iter_pred(i, fr, st, pc, a, t, fn, r):
+    """all/any over the bytes/chars of a symbolic string with some closure: an unknown Boolean of
+    the text (fresh atom per call)"""
+    k = getattr(i, "strpred_calls", 0)
+    i.strpred_calls = k + 1
+    return _ret(i, st, pc, W(1, bits=[B.atom("strpred%d" % k)]))
+
+
 def try_branch(i, fr, st, pc, a, t, fn, r):
     # <Result<T,E> as Try>::branch : Ok(v) -> Continue(v) ; Err(e) -> Break(Err(e))
     v = a[0]
@@ -481,6 +493,15 @@ TABLE = {
     "core::str::<impl str>::len": str_len,
     "core::str::traits::<impl std::ops::Index<I> for str>::index": str_index_range,
     "core::num::<impl u64>::from_str_radix": from_str_radix,
+    "core::str::<impl str>::bytes": str_bytes,
+    "core::str::<impl str>::chars": str_bytes,
+    "core::str::<impl str>::as_bytes": str_bytes,
+    "<std::str::Bytes<'_> as std::iter::Iterator>::all": str_iter_pred,
+    "<std::str::Bytes<'_> as std::iter::Iterator>::any": str_iter_pred,
+    "<std::str::Chars<'a> as std::iter::Iterator>::all": str_iter_pred,
+    "<std::str::Chars<'a> as std::iter::Iterator>::any": str_iter_pred,
+    "std::iter::Iterator::all": str_iter_pred,
+    "std::iter::Iterator::any": str_iter_pred,
     "<std::result::Result<T, E> as std::ops::Try>::branch": try_branch,
     "<std::result::Result<T, F> as std::ops::FromResidual<std::result::Result<std::convert::Infallible, E>>>::from_residual": from_residual,
 }
